@@ -110,6 +110,36 @@ def late_sweep_history(n, relate):
     return refs
 
 
+RELATES = ["none", "works_for", "members", "sub_org", "self-loop", "role", "read-back", "two-kinds-on-one-pair"]
+# ---- histories WITHOUT queries on a fresh graph, each kind alone and first: nothing of an earlier scenario (the listed
+# expression-registry finding keeps instances of query scenarios alive) shares an index entry with the instances under test, so
+# e.g. the self pair really is the only pair of its field when it is swept.  The sweep must not raise and must leave nothing.
+for relate in RELATES:
+    for repeat in range(3):
+        if repeat == 0:
+            SymbolGraph().clear()
+            SymbolGraph()
+        refs = scenario(relate, "no-query", "all")
+        gc.collect()
+        inp = {"relate": relate, "query": "no-query", "consume": "all", "fresh_graph": True, "repeat": repeat}
+        rep.case(("fresh", relate, repeat), sample=inp)
+        try:
+            SymbolGraph().remove_dead_instances()
+        except Exception as e:
+            rep.fail(f"sweep-raises::no-query::{relate}", f"fresh graph, relate={relate}, round {repeat}: remove_dead_instances() raised {type(e).__name__}: {e}", inp)
+            break
+        gc.collect()
+        alive = sum(1 for r in refs if r() is not None)
+        if alive:
+            rep.fail(f"kept-alive::no-query::fresh::{relate}", f"fresh graph, relate={relate}: {alive} of {len(refs)} instances still alive", inp)
+        g_ = SymbolGraph()
+        left = {"graph nodes": len(g_.wrapped_instances), "graph edges": len(list(g_.relations())), "_instance_index": len(g_._instance_index),
+                "_relation_index pairs": sum(len(v) for v in g_._relation_index.values()),
+                "_class_to_wrapped_instances": sum(len(v) for v in g_._class_to_wrapped_instances.values())}
+        left = {k: v for k, v in left.items() if v}
+        if left:
+            rep.fail(f"bookkeeping-grows::no-query::fresh::{'+'.join(sorted(left))}", f"fresh graph, relate={relate}, round {repeat}: left behind {left}", inp)
+        del g_
 SymbolGraph().clear()
 SymbolGraph()
 # warm-up so that lazily created structures exist before the baseline is taken
@@ -117,7 +147,7 @@ scenario("works_for", "explicit-domain", "all")
 gc.collect()
 SymbolGraph().remove_dead_instances()
 
-for relate, query, consume in itertools.product(["none", "works_for", "members", "sub_org", "self-loop", "role", "read-back", "two-kinds-on-one-pair"], ["no-query", "explicit-domain", "implicit-domain", "two-variables"], ["all", "first", "none"]):
+for relate, query, consume in itertools.product(RELATES, ["no-query", "explicit-domain", "implicit-domain", "two-variables"], ["all", "first", "none"]):
     if query == "no-query" and consume != "all":
         continue
     gc.collect()
